@@ -94,6 +94,15 @@ func init() {
 	vals.nClients, vals.nOps = [2]int{1, 1}, [2]int{30, 90}
 	addKind("values-serial", vals, map[string]int{"C15": 6})
 
+	// ackcore: the mixed workload with the require-ack flag on a share of the lock requests: on a
+	// lone leader the acknowledgement is the local log write, so grants are answered by the
+	// persistence channel's goroutine (one more kind of replying goroutine racing the others)
+	ack := base
+	ack.profile, ack.pAck, ack.pMs, ack.pMinute = "ack-core", 250, 20, 0
+	ack.timeouts = []uint16{0, 1, 2, 3, 5}
+	ack.noMonitor = true // the reference model does not cover grants that wait for an acknowledgement (C11's harness does)
+	addKind("ackcore", ack, map[string]int{"C03": 3})
+
 	// msheavy: millisecond timeouts and expiries
 	msk := base
 	msk.profile, msk.pMs, msk.maxDelayMs = "milliseconds", 500, 300
